@@ -30,12 +30,27 @@ type Step struct {
 //	tcp_stall_quiet real replica manager behind the proxy, blackholed right after its session was registered and
 //	                BEFORE the first write: clause 2 is judged first (nothing is outstanding, so only the
 //	                heartbeat timeout can detect the silent peer), then the workload runs
+//	nack_sender     raw gRPC replica that reads its stream and keeps calling NegativeAcknowledge with its
+//	                session id while the workload runs (spam: at a drawn rate for sequence 1 / its last
+//	                received sequence / a future sequence; lossy: protocol-following reader that drops
+//	                every n-th message and NACKs the gap), optionally acknowledging
 //	none            no faulty replica (baseline for the latency oracle)
 type Fault struct {
-	Class     string `json:"class"`
-	AttachAt  int    `json:"attach_at"`  // attached (and registered at the primary) before this step
-	TriggerAt int    `json:"trigger_at"` // tcp_*: the proxy misbehaves before this step (>= AttachAt)
-	SleepMs   int    `json:"sleep_ms,omitempty"`
+	Class     string    `json:"class"`
+	AttachAt  int       `json:"attach_at"`  // attached (and registered at the primary) before this step
+	TriggerAt int       `json:"trigger_at"` // tcp_*: the proxy misbehaves before this step (>= AttachAt)
+	SleepMs   int       `json:"sleep_ms,omitempty"`
+	Nack      *NackSpec `json:"nack,omitempty"`
+}
+
+// NackSpec parameterises the nack_sender class.
+type NackSpec struct {
+	Mode      string `json:"mode"` // spam | lossy
+	EveryUs   int    `json:"every_us,omitempty"`
+	Senders   int    `json:"senders,omitempty"`
+	Target    string `json:"target,omitempty"` // first | last | future | mix
+	Ack       bool   `json:"ack"`
+	DropEvery int    `json:"drop_every,omitempty"`
 }
 
 // HB is the primary's heartbeat configuration.
@@ -70,13 +85,13 @@ func genCase(t *rapid.T) Case {
 	var c Case
 	c.Keys = gen.Keys(t, 6, 24)
 	nk := len(c.Keys)
-	classes := []string{"stalled_reader", "stalled_reader", "tcp_stall", "tcp_stall", "tcp_reset", "tcp_reset", "no_ack", "no_ack", "slow_apply", "slow_apply", "tcp_stall_quiet", "tcp_stall_quiet", "none"}
+	classes := []string{"stalled_reader", "stalled_reader", "tcp_stall", "tcp_stall", "tcp_reset", "tcp_reset", "no_ack", "no_ack", "slow_apply", "slow_apply", "tcp_stall_quiet", "tcp_stall_quiet", "nack_sender", "nack_sender", "nack_sender", "nack_sender", "none"}
 	cls := rapid.SampledFrom(classes).Draw(t, "fault")
 	if f := faultFlag[cls]; f != "" && !ev.Flag(f) {
 		ev.R().Exclude(f)
 		// redirect to the classes that are still allowed
 		allowed := []string{"none"}
-		for _, alt := range []string{"tcp_reset", "tcp_reset", "no_ack", "no_ack", "slow_apply", "slow_apply", "tcp_stall", "tcp_stall", "stalled_reader", "stalled_reader", "tcp_stall_quiet", "tcp_stall_quiet"} {
+		for _, alt := range []string{"tcp_reset", "tcp_reset", "no_ack", "no_ack", "slow_apply", "slow_apply", "tcp_stall", "tcp_stall", "stalled_reader", "stalled_reader", "tcp_stall_quiet", "tcp_stall_quiet", "nack_sender", "nack_sender", "nack_sender", "nack_sender"} {
 			if faultFlag[alt] == "" || ev.Flag(faultFlag[alt]) {
 				allowed = append(allowed, alt)
 			}
@@ -131,6 +146,17 @@ func genCase(t *rapid.T) Case {
 		c.Fault.TriggerAt = c.Fault.AttachAt
 		if cls == "tcp_stall" || cls == "tcp_reset" {
 			c.Fault.TriggerAt = rapid.IntRange(c.Fault.AttachAt, len(c.Steps)/2).Draw(t, "trigger")
+		}
+		if cls == "nack_sender" {
+			ns := &NackSpec{Mode: rapid.SampledFrom([]string{"spam", "spam", "lossy"}).Draw(t, "nackmode"), Ack: rapid.Bool().Draw(t, "nackack")}
+			if ns.Mode == "spam" {
+				ns.EveryUs = rapid.SampledFrom([]int{200, 1000, 5000}).Draw(t, "nackevery")
+				ns.Senders = rapid.IntRange(1, 3).Draw(t, "nacksenders")
+				ns.Target = rapid.SampledFrom([]string{"first", "last", "future", "mix", "mix"}).Draw(t, "nacktarget")
+			} else {
+				ns.DropEvery = rapid.IntRange(2, 7).Draw(t, "dropevery")
+			}
+			c.Fault.Nack = ns
 		}
 		if cls == "slow_apply" {
 			c.Fault.SleepMs = rapid.SampledFrom([]int{5, 20, 100}).Draw(t, "sleepms")
@@ -213,6 +239,9 @@ func classify(c *Case) (bool, []string) {
 	}
 	if txs > 0 {
 		cl = append(cl, "has_tx_commits")
+	}
+	if c.Fault.Nack != nil {
+		cl = append(cl, "nack_"+c.Fault.Nack.Mode)
 	}
 	if c.Reader {
 		cl = append(cl, "concurrent_reader")
